@@ -93,6 +93,34 @@ INFO = {
            "interleaving: thread A (which searched X before) asks about Y while thread B is mid-search on the same Y"),
  "C16_4": ("C16", "ReusableOptimizer.search memoises the reconstructed tree per fingerprint",
            "3-step sequence: miss, hit (builds memo), hit with a different index order of the same contraction"),
+ "C03_3": ("C03", "remove_ind resets a sliced leaf by popping only legs/inds (and its preprocessing) instead of clearing the entry: a cached leaf size survives",
+           "sequence: peak_size() (or any get_size(leaf)) -> remove_ind/slice -> peak_size()"),
+ "C03_4": ("C03", "get_contractor keys the per-tree contractor memo by getattr(order, '__qualname__', order)",
+           "same tree contracted twice with two different order callables of the same qualified name (lambdas/closures from one factory)"),
+ "C06_3": ("C06", "gather_slices brings chunks to the common exponent with mi / 10 ** (ei - emax)",
+           "strip_exponent=True + >=1 sliced output index + chunks with different exponents"),
+ "C06_4": ("C06", "gen_output_chunks decodes the chunk key from the chunk number o instead of the slice number o * stepsize",
+           "with_key=True + >=1 sliced output index + >=1 inner sliced index of size > 1"),
+ "C07_3": ("C07", "ContractionTree.slice builds SliceFinder(self, ...) instead of SliceFinder(tree, ...)",
+           "reslice=True with inplace=False on an already sliced tree"),
+ "C07_4": ("C07", "SliceFinder.search ends with self.best() instead of forwarding the per-call targets",
+           "search() called with a target override tighter than the constructor's (re-using the finder's cache)"),
+ "C17_3": ("C17", "SliceFinder.trial scores candidates = cost.size_dict.keys() - self.forbidden (a set of labels) with a key drawing from the rng",
+           "allow_outer=False/'only' + output indices + temperature not tiny, compared across PYTHONHASHSEED values"),
+ "C17_4": ("C17", "subtree_reconfigure_forest passes seed=None to saplings unless select == 'random'",
+           "subtree_select containing 'max'/'min' together with subtree_search containing 'random', global RNG perturbed"),
+ "C18_3": ("C18", "HyperGraph.contract drops indices shared by both operands unless still in self.edges (ignores the output)",
+           "an output index carried by several tensors whose last two carriers are contracted"),
+ "C18_4": ("C18", "ReconfTrialFn no longer runs trial.update(tree.contract_stats())",
+           "reconf_opts combined with simulated_annealing_opts / slicing_opts / slicing_reconf_opts"),
+ "C19_3": ("C19", "check_zero early exit returns (0.0, 0.0) instead of (0.0, -inf)",
+           "strip_exponent + check_zero + sliced tree + an exactly-zero slice + remaining slices with exponent below about -308"),
+ "C19_4": ("C19", "per-step scale measured with linalg.norm instead of max(abs(.))",
+           "a tree contracting two raw inputs whose decimal scales sum beyond +154 or below -162 (each within 1e-100..1e100)"),
+ "C20_3": ("C20", "HyperGraph.contract treats the bond between the contracted pair as summed even when a third tensor still carries it",
+           "a hyper-edge on >=3 tensors and a tree contracting two of its carriers while a third is still separate"),
+ "C20_4": ("C20", "HyperGraph.__init__ keeps the caller's size_dict when it already is a dict (compress() then writes capped sizes into it)",
+           ">=2 estimates sharing one size_dict on a tree where some double bond forms (capped query first)"),
 }
 
 
@@ -125,7 +153,7 @@ def main():
             "confirmed_by_me": ran,
             "detected_by_own_check": det[0].strip().strip("*") if row else "unknown",
             "rules_firing": det[1].strip() if row else "unknown",
-            "base_commit_of_patch": "3d0eb8e (applies to later HEADs unless noted)",
+            "base_commit_of_patch": "3d0eb8e (round 1) / e0d45e8 (round 2); all apply to the current HEAD",
         }
         with open(os.path.join(d, "meta.json"), "w") as f:
             json.dump(meta, f, indent=1)
